@@ -53,6 +53,14 @@ def run_property(prop, tier, repo=None):
         run.extra["rule_vitality_selftest"] = st
         if st.get("missed"):
           run.note("self-test: rule(s) did not fire on variant(s) %s" % ", ".join(st["missed"]))
+        sb = selftest.stability(prop)
+        run.extra["verdict_under_behaviour_preserving_refactors"] = sb
+        unstable = sorted(t for t, v in sb.items() if v != "same verdict")
+        if unstable:
+          run.note("verdict not stable under mechanical refactor(s) %s" % ", ".join(unstable))
+        print("%s thorough: verdict stable under %d/%d mechanical refactors%s" % (
+          prop, len(sb) - len(unstable), len(sb),
+          (" (not: %s)" % ", ".join(unstable)) if unstable else ""))
         print("%s thorough: mutation self-test %s/%s variants caught%s" % (
           prop, st.get("caught", 0), st.get("variants", 0),
           (", inapplicable: %s" % ", ".join(st["inapplicable"])) if st.get("inapplicable") else ""))
